@@ -125,8 +125,10 @@ class Model():
 
         for cell in self.cells:
             if self.cells[cell].formula is not None:
+                # A range is known by its address text (`address` is its
+                # matrix of cell addresses).
                 defined_names = {
-                    name: defn.address
+                    name: getattr(defn, 'address_str', defn.address)
                     for name, defn in self.defined_names.items()}
                 self.cells[cell].formula.ast = parser.FormulaParser().parse(
                     self.cells[cell].formula.formula, defined_names)
